@@ -335,7 +335,7 @@ def cte_query(rng):
     """CTEs whose name may coincide with a real table of another integration that the same statement also uses
     (join partner, IN-subquery, UNION branch).  Returns text (unordered result)."""
     r = rng
-    name = r.choice(['cte1', 't1', 't2', 't3', 't2', 't3'])
+    name = r.choice(['cte1', 't1', 't2', 't3', 't2', 't3', 'Recent', 'CTE_X', 'myCte'])
     src = r.choice(['t1', 't2', 't3'])
     body = f'SELECT s.id AS id, s.{"a" if src != "t3" else "x"} AS v FROM {qual_multi(src)} AS s WHERE s.id {r.choice(["<", ">", "!="])} {r.choice([2, 3, 4])}'
     other = r.choice(['t1', 't2', 't3'])
